@@ -1,6 +1,7 @@
 package props
 
 import (
+	"bytes"
 	"encoding/json"
 	"fmt"
 
@@ -295,6 +296,19 @@ func c07Run(c *fw.Ctx, b fw.Batch) {
 				}
 			}
 		}
+	case "huge":
+		// size thresholds: the first binary data byte far into a long clean text
+		for _, off := range []int{4095, 4096, 65535, 65536, 1<<20 - 1, 1 << 20, 1<<20 + 1, 1<<21 + 7} {
+			x := bytes.Repeat([]byte("clean text line\n"), off/16+2)
+			x = x[:off+5]
+			for _, v := range []byte{0x00, 0x1A, 0x0B, 0x1F} {
+				x[off] = v
+				for _, l := range []uint32{0, uint32(off), uint32(off + 1), 1 << 22, 3072} {
+					c07Judge(c, "huge", x, l, "Detect", fmt.Sprintf("huge|%d|%02x|%d", off, v, l))
+				}
+			}
+			x[off] = 'x'
+		}
 	case "random":
 		alph := []byte{0x00, 0x01, 0x08, 0x09, 0x0A, 0x0B, 0x0C, 0x0D, 0x0E, 0x1A, 0x1B, 0x1C, 0x1F, 0x20, 'a', '{', '<', ',', 0x7F, 0x80, 0xEF, 0xBB, 0xBF, 0xFE, 0xFF}
 		n := b.N
@@ -326,7 +340,7 @@ func init() {
 	fw.Register(&fw.Prop{
 		ID:    "C07",
 		Level: "exploration",
-		Rule: "cases = base texts (ascii, utf-8, latin-1, json, csv, html, xml, shebang, …, empty, 1-2 bytes, >limit) with each of the 256 byte values replaced/inserted at every position (all positions for bases <= 64 bytes) x limits placing the byte inside / last-inside / just outside the examined header; the 5 BOMs, their proper prefixes and one-bit near misses followed by binary bytes; every seed of the corpus alone, truncated, BOM-prefixed, sanitised and re-injected; random strings. " +
+		Rule: "cases = base texts (ascii, utf-8, latin-1, json, csv, html, xml, shebang, …, empty, 1-2 bytes, >limit) with each of the 256 byte values replaced/inserted at every position (all positions for bases <= 64 bytes) x limits placing the byte inside / last-inside / just outside the examined header; the 5 BOMs, their proper prefixes and one-bit near misses followed by binary bytes; every seed of the corpus alone, truncated, BOM-prefixed, sanitised and re-injected; long clean texts whose first binary byte sits at offsets 4 KiB … 2 MiB; random strings. " +
 			"A case is non-trivial when its examined header holds a byte outside printable ASCII (so the byte-class predicate has something to decide); distinct = distinct (family, base kind, byte value, position class, limit relation) tuples.",
 		Assumptions: []string{
 			"oracle byte ranges and BOM table are hard-coded from the property statement, not taken from the library",
@@ -337,6 +351,7 @@ func init() {
 			bs = append(bs, batches("inject", 12, 0, 900)...)
 			bs = append(bs, batches("bom", 2, 0, 900)...)
 			bs = append(bs, batches("seeds", 4, 0, 900)...)
+			bs = append(bs, batches("huge", 1, 0, 900)...)
 			n := 100000
 			if tier == "thorough" {
 				n = 1500000
